@@ -711,6 +711,29 @@ pub fn run(session: &Session) -> i32 {
         }
         }
     }
+    // a sequence whose label is wider than its elements comes out of one input and is sliced by a later
+    // one (which knows it as a value): the slice is a sequence of the same kind on both routes, whatever
+    // it selects - tested by the language's own type tests
+    for (maker, ty) in [("() -> [int|string] { return [1, 2, \"s\"]; }", "[int]"), ("() -> [int|float] { return [1, 2, 2.5]; }", "[int]"), ("() -> [any] { return [1, 2]; }", "[int]"), ("() -> [[int]|int] { return [1, [2]]; }", "[int]")] {
+        for slice in ["a[0:2]", "a[:1]", "a[::2][0:1]", "a[0:1] + a[1:2]", "a[5:]", "a[0:2][::-1]"] {
+            let inputs = [
+                format!("mk := {maker};"),
+                "a := mk();".to_string(),
+                format!("h := {slice};"),
+                format!("kind := match h {{ x: {ty} => \"narrow\", => \"wide\", }};"),
+                format!("t := if x: {ty} = h {{ 1 }} else {{ 0 }};"),
+                "(kind, t, std.len(h))".to_string(),
+            ];
+            let items: Vec<Json> = inputs
+                .iter()
+                .map(|t| {
+                    let names: Vec<String> = t.split(';').filter_map(|st| st.trim().split_once(" := ").map(|(n, _)| n.trim().to_string())).filter(|n| !n.contains('(') && !n.contains(' ')).collect();
+                    json!({"declares": names, "text": t})
+                })
+                .collect();
+            cases.push(json!({"kind": "repl", "files": {}, "inputs": items, "binary": true}));
+        }
+    }
     // the same input several times in a row (each time it means what it means then), inputs whose later
     // statement fails after an earlier one of the same input has run, and variables with names a console
     // might be tempted to use itself
